@@ -28,6 +28,20 @@ Definition fc_checks (pp rp : list cppport) (clients : list str) : list (obj * c
 Definition final_construct (m : slots) (pp rp : list cppport) (clients : list str) : bool :=
   forallb (fun op => bound m (fst op) (snd op)) (fc_checks pp rp clients).
 
+(* The emitted body runs in this order: FinalConstruct()/check_bindings() of the boundary objects (a failure throws), then
+   `m_encapsulee.dzn_meta.parent = parentComponentMeta;`, then the encapsulee's own check_bindings() (a failure throws).
+   [final_construct_run] returns whether the call returns normally and the parent recorded afterwards. *)
+Definition fc_boundary (pp rp : list cppport) (clients : list str) : list (obj * cppport) :=
+  flat_map (fun p => if cp_is_mc p then map (fun c => (Cli (cp_name p) c, p)) clients else []) pp ++
+  flat_map (fun p => if cp_is_mc p then [] else [(acc_obj p, p)]) pp ++
+  map (fun p => (acc_obj p, p)) rp.
+Definition fc_own (pp rp : list cppport) : list (obj * cppport) := map (fun p => (Enc (cp_name p), p)) (pp ++ rp).
+
+Definition final_construct_run (m : slots) (recorded given : option N) (pp rp : list cppport) (clients : list str) : bool * option N :=
+  if forallb (fun op => bound m (fst op) (snd op)) (fc_boundary pp rp clients)
+  then (forallb (fun op => bound m (fst op) (snd op)) (fc_own pp rp), given)
+  else (false, recorded).
+
 (* ---------- facilities ---------- *)
 
 Inductive service := SPump | SRuntime | SOther (n : N).
